@@ -660,6 +660,7 @@ func runResponseStream(c *Ctx, n int, focus string) {
 	cs := c.NewSet("resp", "Base Time Xml Ns Types Profile Decode Response",
 		"(config * instant * node * list (node * dsig_result) * list (node * res node))",
 		"fun i => match i with (cfg, now, root, dt, et) => VL [res_val response_val (validate_response_tree (dsig_table dt) (decrypt_table et) cfg now root); res_val assertion_info_val (retrieve_assertion_info_tree (dsig_table dt) (decrypt_table et) cfg now root)] end")
+	cs.PerShard = 25
 	for k := 0; k < n; k++ {
 		g := &xgen{r: c.R, now: baseNow.Add(time.Duration(c.R.Intn(100000)) * time.Second)}
 		r := c.R
